@@ -51,7 +51,7 @@ def inv08_kind(ents, loc, search, res):
 
 
 def inv08(sim, kinds=KINDS):
-    return And(*[inv08_kind(getattr(sim, e), getattr(sim, l), getattr(sim, s), sim.sim_h3_search_resolution)
+    return And(*[pred("inv08", inv08_kind, getattr(sim, e), getattr(sim, l), getattr(sim, s), sim.sim_h3_search_resolution)
                  for e, l, s, _ in (KINDS[k] for k in kinds)])
 
 
@@ -63,6 +63,7 @@ def same_except(sim2, sim, fields):
 
 def register(R):
     P = ("C08",)
+    _before = set(R.specs)
     a_idx = {"xs": IDX, "collection_id": StrT, "obj_id": StrT}
     s = R.spec(DO + "add_to_collection_dict", arg_types=a_idx, ret=IDX)
     s.ensures("value", lambda a, r: r == coll_add(a.xs, a.collection_id, a.obj_id), P).no_raise(P)
@@ -133,3 +134,6 @@ def register(R):
             Implies(is_success(r), And(getattr(unwrap(r), ents) == getattr(a.sim, ents).delete(getattr(a, idn)),
                                        same_except(unwrap(r), a.sim, [ents, loc, search])))))(ents, loc, search, idn), P)
         s.no_raise(P)
+
+    for k in set(R.specs) - _before:
+        R.specs[k].unfold = {"inv08"}
